@@ -50,6 +50,9 @@ def dim_of(v):
         return v.dim
     if v.kind == "arr" and v.shape == () and v.dim is not None:
         return v.dim
+    if v.kind == "int" and v.term.op not in ("unk",):
+        # symbolic integer without a size meaning: opaque (rigid) atom keyed by its term
+        return Dim(0, {("t", v.term): 1})
     return None
 
 
